@@ -20,8 +20,8 @@ enum Info {
     AddLabel { label: String, modulus: i64, rem: i64 },
     RemoveLabel { label: String, modulus: i64, rem: i64 },
     SetProp { label: String, prop: String, modulus: i64, rem: i64 },
-    Delete { modulus: i64, rem: i64 },
-    RemoveProp { prop: String, modulus: i64, rem: i64 },
+    Delete { label: String, modulus: i64, rem: i64 },
+    RemoveProp { label: String, prop: String, modulus: i64, rem: i64 },
     Other,
 }
 
@@ -109,7 +109,7 @@ fn gen_history(seed: u64, k: usize) -> (Vec<Step>, (String, String), usize) {
             }
             3 => {
                 let r = rng.below(3) as i64;
-                stmt(format!("MATCH (n:{l}) WHERE n.uid % 3 = {r} REMOVE n.{p}"), Info::RemoveProp { prop: p.to_string(), modulus: 3, rem: r })
+                stmt(format!("MATCH (n:{l}) WHERE n.uid % 3 = {r} REMOVE n.{p}"), Info::RemoveProp { label: l.to_string(), prop: p.to_string(), modulus: 3, rem: r })
             }
             4 => {
                 let r = rng.below(3) as i64;
@@ -121,9 +121,9 @@ fn gen_history(seed: u64, k: usize) -> (Vec<Step>, (String, String), usize) {
             }
             6 => {
                 let r = rng.below(4) as i64;
-                stmt(format!("MATCH (n:{l}) WHERE n.uid % 4 = {r} DETACH DELETE n"), Info::Delete { modulus: 4, rem: r })
+                stmt(format!("MATCH (n:{l}) WHERE n.uid % 4 = {r} DETACH DELETE n"), Info::Delete { label: l.to_string(), modulus: 4, rem: r })
             }
-            7 => stmt(format!("MATCH (n:{l}) SET n.{p} = null"), Info::RemoveProp { prop: p.to_string(), modulus: 1, rem: 0 }),
+            7 => stmt(format!("MATCH (n:{l}) SET n.{p} = null"), Info::RemoveProp { label: l.to_string(), prop: p.to_string(), modulus: 1, rem: 0 }),
             8 => Step::Compact,
             _ => Step::Reopen,
         };
@@ -333,18 +333,32 @@ fn classify(steps: &[Step], idx: &(String, String), with_index: &[String], witho
     let mut maybe_deleted = false;
     let mut maybe_prop_removed = false;
     let compacted = steps.iter().any(|s| matches!(s, Step::Compact));
+    // the labels the node carries while the history runs: a statement that names a label only
+    // touches the node if it carries that label at that moment
+    let mut labels_now: std::collections::BTreeSet<String> = Default::default();
     for (i, s) in steps.iter().enumerate() {
         if let Step::Stmt(_, info) = s {
             match info {
                 Info::Create { uid: u, labels } if *u == uid => {
                     created_at = Some(i);
                     first_label = labels[0].clone();
+                    labels_now = labels.iter().cloned().collect();
                 }
-                Info::AddLabel { label, modulus, rem } if label == il && uid % modulus == *rem && created_at.is_some() && first_label != *il => label_added_later = true,
-                Info::RemoveLabel { label, modulus, rem } if label == il && uid % modulus == *rem && created_at.is_some() => label_removed = true,
-                Info::Delete { modulus, rem } if uid % modulus == *rem && created_at.is_some() => maybe_deleted = true,
-                Info::RemoveProp { prop, modulus, rem } if prop == ip && uid % modulus == *rem && created_at.is_some() => maybe_prop_removed = true,
-                Info::SetProp { label: _, prop, modulus, rem } if prop == ip && uid % modulus == *rem && index_pos.map(|p| i > p).unwrap_or(false) => prop_set_after_index = true,
+                Info::AddLabel { label, modulus, rem } if uid % modulus == *rem && created_at.is_some() => {
+                    if label == il && first_label != *il {
+                        label_added_later = true;
+                    }
+                    labels_now.insert(label.clone());
+                }
+                Info::RemoveLabel { label, modulus, rem } if uid % modulus == *rem && created_at.is_some() && labels_now.contains(label) => {
+                    if label == il {
+                        label_removed = true;
+                    }
+                    labels_now.remove(label);
+                }
+                Info::Delete { label, modulus, rem } if uid % modulus == *rem && created_at.is_some() && labels_now.contains(label) => maybe_deleted = true,
+                Info::RemoveProp { label, prop, modulus, rem } if prop == ip && uid % modulus == *rem && created_at.is_some() && labels_now.contains(label) => maybe_prop_removed = true,
+                Info::SetProp { label, prop, modulus, rem } if prop == ip && uid % modulus == *rem && labels_now.contains(label) && index_pos.map(|p| i > p).unwrap_or(false) => prop_set_after_index = true,
                 _ => {}
             }
         }
